@@ -327,6 +327,8 @@ class HistGen:
         if x < 0.5:
             return self.asg(st, False)
         if x < 0.56:
+            if cls == "MagpyMarkers":        # internal class without a style setter: plain update instead
+                return {"op": "upd", "def": False, "sub": [], "arg": self.arg(st)}
             return {"op": "setstyle", "arg": self.arg(st)}
         if x < 0.68:
             fams = [f for f in class_families(cls) + ["base"] if f in dict(sub_struct(dst, ("display", "style"))[5])]
